@@ -1,0 +1,85 @@
+/*
+ * Verification hooks (off by default).
+ *
+ * Everything in this file is empty unless UPIPE_VERIF is defined at compile
+ * time. With UPIPE_VERIF, two weak function pointers are declared; when they
+ * are NULL (the default) the hooks are a never-taken branch.
+ */
+
+/** @file
+ * @short Upipe verification hooks (yield points and pool notifications)
+ */
+
+#ifndef _UPIPE_UVERIF_H_
+/** @hidden */
+#define _UPIPE_UVERIF_H_
+#ifdef __cplusplus
+extern "C" {
+#endif
+
+#ifdef UPIPE_VERIF
+
+#include <stddef.h>
+
+/** @This enumerates the yield sites. */
+enum uverif_site {
+    UVERIF_ATOMIC_STORE = 0,
+    UVERIF_ATOMIC_LOAD,
+    UVERIF_ATOMIC_CAS,
+    UVERIF_ATOMIC_FETCH_ADD,
+    UVERIF_ATOMIC_FETCH_SUB,
+    UVERIF_RING_TAG_INC,
+    UVERIF_RING_TAG_READ,
+    UVERIF_RING_NEXT_READ,
+    UVERIF_RING_NEXT_WRITE,
+    UVERIF_RING_OPAQUE_READ,
+    UVERIF_RING_OPAQUE_WRITE,
+    UVERIF_EVENTFD_READ,
+    UVERIF_EVENTFD_WRITE,
+    UVERIF_SITE_MAX
+};
+
+/** @This enumerates the pool notifications. */
+enum uverif_pool_event {
+    /** object taken out of the pool (before it is handed to the caller) */
+    UVERIF_POOL_GET = 0,
+    /** object freshly allocated by the alloc call-back */
+    UVERIF_POOL_NEW,
+    /** object about to be parked in the pool */
+    UVERIF_POOL_PARK,
+    /** parking failed (pool full), object about to be destroyed */
+    UVERIF_POOL_PARK_FAILED,
+    /** object taken out of the pool by vacuum, about to be destroyed */
+    UVERIF_POOL_VACUUM
+};
+
+/** called before every atomic operation, unsynchronised ring element access
+ * and event descriptor read/write */
+void (*uverif_yield_hook)(int site, const void *addr) __attribute__((weak));
+/** called on pool events */
+void (*uverif_pool_hook)(int event, void *pool, void *obj)
+    __attribute__((weak));
+
+#define UVERIF_YIELD(site, addr)                                            \
+    do {                                                                    \
+        if (__builtin_expect(uverif_yield_hook != NULL, 0))                 \
+            uverif_yield_hook(site, addr);                                  \
+    } while (0)
+
+#define UVERIF_POOL(event, pool, obj)                                       \
+    do {                                                                    \
+        if (__builtin_expect(uverif_pool_hook != NULL, 0))                  \
+            uverif_pool_hook(event, pool, obj);                             \
+    } while (0)
+
+#else
+
+#define UVERIF_YIELD(site, addr) do {} while (0)
+#define UVERIF_POOL(event, pool, obj) do {} while (0)
+
+#endif
+
+#ifdef __cplusplus
+}
+#endif
+#endif
